@@ -624,7 +624,9 @@ func internalNewEvaluator(ce []ConsumedElement) (Evaluator, []ConsumedElement, e
 			case lexer.ItemOr:
 				op = OR
 			default:
-				return nil, nil, fmt.Errorf("cannot create a binary boolean evaluation operand for %v", opTkn)
+				// Not a binary boolean expression: what follows the closing parenthesis (for
+				// instance the parenthesis of an enclosing expression) belongs to the caller.
+				return tailEval, tail, nil
 			}
 			rTailEval, ceResTail, err := internalNewEvaluator(tail[1:])
 			if err != nil {
